@@ -22,13 +22,16 @@ MANIFEST = {
             "notifications, Echo challenges, save watermark, crashes + restarts): own_piv_strictly_increasing / "
             "own_nonce_never_reused (the Partial IVs used with the endpoint's own Sender ID never repeat, all histories, all "
             "configurations), response_nonce_is_peers (what goes out without Partial IV uses a request nonce of the peer, never an "
-            "own one). The request-nonce half of nonce reuse is OBSERVED, not proved over histories: the (key, nonce) pair really handed to the AEAD "
+            "own one), request_nonce_used_at_most_once / nonce_never_reused (per life of the process, no hypothesis on the application: a "
+            "response re-uses the nonce of a request at most once per accepted request; all nonces handed to the AEAD are pairwise "
+            "distinct), forged_b2_response_no_trace (Appendix B.2 client: a response that does not verify leaves b_2_step and the ID "
+            "Context untouched). Also OBSERVED on the implementation alone: the (key, nonce) pair really handed to the AEAD "
             "(--wrap=cose_encrypt0_encrypt) for every request, response and notification an endpoint protects while requests, Observe "
             "registrations and forged requests arrive must be pairwise distinct and, without Partial IV, be the nonce of an accepted "
             "request (step theorems only: notification_fresh_piv, observe_response_fresh_piv, forged_request_no_association).",
     "note": "Trusted: Lean kernel (+ propext, Classical.choice, Quot.sound), harness/replay.c, generators and the Python monitor, the "
             "hand transcription M (checked against the compiled code on the cases run only). The AEAD is an oracle (authentic / forged). "
-            "piv_never_reused assumes fewer than 2^63 operations (uint64 counter). Nine defects of the pinned tree were fixed "
+            "piv_never_reused assumes fewer than 2^63 operations (uint64 counter). Thirteen defects of the pinned tree were fixed "
             "(KNOWN_FINDINGS.txt); M models the fixed code. 'At most once' is claimed for requests (the property text); replays of "
             "responses are only rejected once the window is initialised (SPEC DECISION D15f).",
     "design_ref": "DESIGN.md §4 C15, design/C15.md",
@@ -62,6 +65,8 @@ RULE = ("recipient: histories of <= 30 protected messages delivered through coap
         "whole sender side (endp): <= 26 ops over requests of a conforming peer (with / without / stale Echo, re-delivered), forged "
         "requests, own requests / Observe registrations / deregistrations with tokens from the same 1..4 tokens, responses, "
         "crashes + restarts (ssn_freq 0..2^32-1, start values next to 2^40-1), all sequences of length <= 3 over 11 symbols; "
+        "Appendix B.2 client response path (b2c): responses that do not verify with every form of kid context field (absent, empty, "
+        "not CBOR, 0..23 bytes, the current ID Context), all sequences of length <= 3 over 7 forms + random lines; "
         "the fixed corpus. "
         "non-trivial = distinct history in which at least one message was accepted / one PIV was sent")
 TRUSTED_BASE = ["Lean 4.33 kernel; axioms allowed: propext, Classical.choice, Quot.sound (audited per theorem each run)",
